@@ -527,3 +527,26 @@ Proof.
   induction F as [|j e js es [Hw Hje] F IH]; [constructor|].
   cbn [map]. constructor; [|exact IH]. exists j. split; [apply loads_dumps, Hw|exact Hje].
 Qed.
+
+(* ---------- (v) in every calling context ---------- *)
+Lemma send_ops_context_free x y c s : send_ops_in x c s = send_ops_in y c s.
+Proof. reflexivity. Qed.
+
+(* The last two operations of a send on the blocking writer are the write of its last frame and a
+   flush; whatever ANY thread did to the transport before that flush (hist: an arbitrary history that
+   contains the write), once the flush - the last thing the sending call does - has happened nothing
+   is left in the buffer and the frame is on the pipe. *)
+Theorem flushed_when_send_returns x c s : framed c = true -> writer c = WStdout -> sent_trees s <> [] ->
+  exists pre d, send_ops_in x c s = pre ++ [TWrite d; TFlush] /\
+    forall hist, In (TWrite d) hist ->
+      snd (transport (hist ++ [TFlush])) = [] /\
+      exists h1 h2, fst (transport (hist ++ [TFlush])) = stream h1 ++ d ++ stream h2.
+Proof.
+  intros H Hw Hne. unfold send_ops_in. rewrite send_ops_frames by exact H. rewrite Hw.
+  destruct (exists_last Hne) as (l & j & ->).
+  exists (flat_map (frame_ops WStdout) l), (frame (dumps j)). split.
+  - rewrite flat_map_app. cbn [flat_map frame_ops writer_write stdout_writer_write app]. reflexivity.
+  - intros hist Hin. rewrite transport_flush. split; [reflexivity|].
+    destruct (in_split _ _ Hin) as (h1 & h2 & ->). exists h1, h2.
+    cbn [fst]. rewrite stream_app. reflexivity.
+Qed.
